@@ -499,6 +499,18 @@ class SFile:
     def value(self):
         return mk(self.chunks)
 
+    def close(self):
+        pass
+
+    def flush(self):
+        pass
+
+    def __enter__(self):
+        return self
+
+    def __exit__(self, *a):
+        return False
+
     # reading side (list of lines)
     def seek(self, p):
         if p != 0:
